@@ -299,7 +299,7 @@ func (s *controllingSelector) checkForAutomaticRenomination() {
 		// Update last renomination time to prevent rapid renominations
 		s.agent.lastRenominationTime = time.Now()
 
-		if err := s.agent.RenominateCandidate(bestPair.Local, bestPair.Remote); err != nil {
+		if err := s.agent.renominateCandidate(bestPair.Local, bestPair.Remote); err != nil {
 			s.log.Errorf("Failed to trigger automatic renomination: %v", err)
 		}
 	} else {
